@@ -7,7 +7,7 @@ from ..harness import POISONS, poisoned_empty, qcall
 
 ID = "C08"
 LEVEL = "exploration"
-BUDGET = {"quick": 1200, "thorough": 400000}
+BUDGET = {"quick": 3600, "thorough": 400000}
 TECHNIQUE = "property-based testing: covering grid from the generator, bit-exact; poisoned numpy.empty differential; serial vs scheduled pool"
 RULE = ("Hypothesis-generated 2D plotfiles (rectangular domains with >= 4 cells per direction, non-zero origin, "
         "non-square boxes, 1-3 nested levels, any binary layout, special-float payloads) x field list (names in any "
@@ -27,7 +27,7 @@ def bump_mesh(spec):
 
 @st.composite
 def cases(draw, tier="quick"):
-    spec = bump_mesh(draw(plotgen.plot_specs(ndims=2, max_cells=3000 if tier == "quick" else 12000, max_fields=5,
+    spec = bump_mesh(draw(plotgen.plot_specs(thin=True, ndims=2, max_cells=3000 if tier == "quick" else 12000, max_fields=5,
                                              payload_kinds=("special", "coded", "random"))))
     nf = len(spec["fields"])
     mode = draw(st.sampled_from(["names", "names", "names+grid", "grid", "all"]))
